@@ -267,6 +267,11 @@ func relayout(rng *rand.Rand, format string, text []byte) ([]byte, []string) {
 	if rng.Intn(2) == 0 {
 		ops = append(ops, "crlf")
 		text = bytes.ReplaceAll(text, []byte{'\n'}, []byte{'\r', '\n'})
+		if rng.Intn(3) == 0 && bytes.HasSuffix(text, []byte{'\r', '\n'}) {
+			// the final newline omitted from a CRLF file literally: the last line ends in a bare CR
+			ops = append(ops, "no final LF")
+			text = text[:len(text)-1]
+		}
 	}
 	return text, ops
 }
